@@ -411,6 +411,27 @@ def gen_send():
     rv = [U(s) for s in P.find_def(br, "PBRootUnslicer.reportViolation").body if not isinstance(s, ast.If)]
     need(rv == ["return None"], "PBRootUnslicer.reportViolation no longer absorbs")
     out.append("Definition receiving_root_absorbs : bool := true. (* PBRootUnslicer.reportViolation returns None *)")
+    # the receiver numbers OPENs too (objectCounter -> Unslicer.start(count) -> setObject / `reference` resolution).  The
+    # sender numbers EVERY OPEN it writes, so the receiver must count the OPENs it discards as well.
+    hd = P.find_def(bm, "Banana.handleData")
+    opens = [n for n in ast.walk(hd) if isinstance(n, ast.If) and U(n.test) == "typebyte == OPEN"
+             and any(isinstance(x, ast.AugAssign) and U(x.target) == "self.objectCounter" for x in ast.walk(n))]
+    need(len(opens) == 1, "handleData: expected one `if typebyte == OPEN:` that advances self.objectCounter, found %d" % len(opens))
+    want = ["self.inboundObjectCount = self.objectCounter", "self.objectCounter += 1"]
+    b = opens[0].body
+    if [U(x) for x in b[:2]] == want:
+        counts_rejected = True
+    elif isinstance(b[0], ast.If) and U(b[0].test) == "not rejected" and [U(x) for x in b[0].body] == want and not b[0].orelse:
+        counts_rejected = False
+    else:
+        raise P.Untranslatable("handleData: the OPEN counter is advanced in an unexpected way: " + U(b[0])[:120])
+    rj = [U(n) for n in ast.walk(hd) if isinstance(n, ast.If) and U(n.test) == "self.discardCount" and U(n.body[0]) == "rejected = True"]
+    need(len(rj) == 1, "handleData: `rejected` is no longer derived from self.discardCount")
+    need(len([n for n in ast.walk(hd) if isinstance(n, ast.AugAssign) and U(n.target) == "self.objectCounter"]) == 1,
+         "handleData advances self.objectCounter in more than one place")
+    out.append("Definition recv_counts_rejected_opens : bool := %s.   (* handleData advances objectCounter for an OPEN %s *)"
+               % ("true", "whether or not it is being discarded") if counts_rejected else
+               "Definition recv_counts_rejected_opens : bool := false.   (* handleData advances objectCounter only `if not rejected` *)")
     return "\n\n".join(out) + "\n"
 
 
